@@ -229,7 +229,7 @@ def ladder_configs(quick: bool) -> list[dict]:
             ("single", "synth_z:0.0002", 1000.0, 8000.0, "none"), ("single", "synth_z:0.0", 4000.0, 8000.0, "none"),
             ("single", "synth_z:0.0002", 3000.0, 8000.0, "stepdown"), ("single", "synth_z:0.0002", 7992.0, 8000.0, "none"),
             # a schedule that also rises (choke-back), and an initial pressure well between two rows of a 10-psi table
-            ("single", "synth_z:0.0002", 2000.0, 9000.0, "updown"), ("single", "pvt_gas", 100.0, 305.0, "none")]
+            ("single", "synth_z:0.0002", 2000.0, 9000.0, "updown"), ("single", "synth_z:0.0002", 400.0, 999.0, "none")]
     if not quick:
         fams += [("single", "synth_z:0.0005", 7000.0, 8000.0, "none"), ("single", "pvt_gas", 1200.0, 2449.0, "updown"),
                  ("ideal", "pvt_gas", 7900.0, 8000.0, "none"), ("single", "pvt_gas", 1000.0, 8000.0, "none"),
